@@ -1,11 +1,548 @@
-/- Hand-written executable model (tie B): Heap.  Core Lean only — no Mathlib import in this file. -/
+/- Hand-written executable model (tie B): Heap.  Core Lean only — no Mathlib import in this file.
+
+   A tiny heap semantics for numpy aliasing (property C20): buffers with ids, objects that
+   reference buffers (ndarray = one data buffer, MaskedArray = data + mask buffer, python list of
+   arrays = several buffers, python scalar / None = none), the conversion / view / copy primitives
+   GSTools uses, in-place operators and slice assignment that write *through* a reference, named
+   attributes (`setattr(self, name, field)`), and the straight-line data flow of every public entry
+   point that reaches an in-place operator, parametrised by the aliasing-enabling configuration.
+
+   `safeFrom` is a static ownership analysis ("every write goes through a variable that only
+   references buffers allocated during this call"); its soundness for *every* program and *every*
+   initial heap is proved in GSV/Lemmas/Heap.lean, the per-entry-point instances in GSV/Props/C20.lean. -/
 import GSV.Proto
-open Lean GSV GSV.Proto GSV.Transc
+open Lean GSV GSV.Proto
 namespace GSV.Model.Heap
+
+abbrev BufId := Nat
+abbrev Var := Nat
+abbrev Name := Nat
+
+/-- what a python value references -/
+structure Obj where
+  /-- data buffers reachable through the object (ndarray: one; list of arrays: several; scalar: none) -/
+  bufs : List BufId
+  /-- mask buffer of a MaskedArray (`[]` = `nomask` / not a MaskedArray) -/
+  mask : List BufId
+  /-- an ndarray of dtype float64: `np.asarray(x, dtype=np.double)` is `x` itself -/
+  f64  : Bool
+  /-- `x.reshape(target shape)` is a view (already that shape, or contiguous) -/
+  view : Bool
+  deriving Repr, DecidableEq, Inhabited
+
+namespace Obj
+def all (o : Obj) : List BufId := o.bufs ++ o.mask
+/-- python float / None / anything that owns no array memory -/
+def scalar : Obj := ⟨[], [], false, false⟩
+/-- a newly allocated float64 C-contiguous ndarray -/
+def arr (b : BufId) : Obj := ⟨[b], [], true, true⟩
+/-- a newly allocated float64 MaskedArray with its own mask -/
+def marr (b m : BufId) : Obj := ⟨[b], [m], true, true⟩
+end Obj
+
+structure St where
+  /-- next unused buffer id; every buffer that exists has a smaller id -/
+  next : BufId
+  /-- local variables of the running call (arguments are bound here by the caller) -/
+  env : List (Var × Obj)
+  /-- attributes of the objects involved (stored fields, conditions, …) -/
+  attrs : List (Name × Obj)
+  /-- values returned to the caller, latest first -/
+  rets : List Obj
+  /-- log of buffers written through, latest first -/
+  written : List BufId
+  /-- abstract contents: a version counter per buffer, bumped by every write -/
+  ver : BufId → Nat
+
+def get : List (Nat × Obj) → Nat → Obj
+  | [], _ => Obj.scalar
+  | (k, o) :: t, x => if x = k then o else get t x
+
+def St.bind (σ : St) (x : Var) (o : Obj) : St := { σ with env := (x, o) :: σ.env }
+
+/-- allocate a fresh array (and a fresh mask if `masked`) and bind it to `x` -/
+def St.alloc (σ : St) (x : Var) (masked : Bool := false) : St :=
+  if masked then { σ with next := σ.next + 2, env := (x, Obj.marr σ.next (σ.next + 1)) :: σ.env }
+  else { σ with next := σ.next + 1, env := (x, Obj.arr σ.next) :: σ.env }
+
+def St.write (σ : St) (bs : List BufId) : St :=
+  { σ with written := bs ++ σ.written,
+           ver := fun b => if b ∈ bs then σ.ver b + 1 else σ.ver b }
+
+inductive Op
+  /-- `dst = np.asarray(src, dtype=np.double)` (also `np.asanyarray`, `np.atleast_nd(np.asarray(..))`):
+      the same data buffer iff `src` is a float64 ndarray, otherwise a new array; the mask is dropped -/
+  | asarray (dst src : Var)
+  /-- `dst = src.reshape(shape)` / `np.reshape(src, shape)`: a view when possible, else a copy -/
+  | reshape (dst src : Var)
+  /-- `dst = src[basic index]`, `src.T`, `src.swapaxes`, `np.atleast_nd(src)`; `contig` = result still reshapes as a view -/
+  | view (dst src : Var) (contig : Bool)
+  /-- `dst = np.array(src, dtype=np.double)` (copy=True is numpy's default), `src.copy()` -/
+  | copy (dst src : Var)
+  /-- `dst =` result of arithmetic, a ufunc, boolean / fancy indexing, `np.empty`, `np.zeros_like`, … -/
+  | fresh (dst : Var)
+  /-- `dst =` python float / None -/
+  | scalar (dst : Var)
+  /-- `dst = [src]` : a python list holding the same array -/
+  | wrapList (dst src : Var)
+  /-- `dst = np.ma.array(src, dtype=np.double)` (copy=False): float64 input → data *and mask* shared -/
+  | maArray (dst src : Var)
+  /-- `dst = np.ma.array(src, dtype=np.double, copy=True)` -/
+  | maCopy (dst src : Var)
+  /-- `dst = src.filled()`: the data itself when there is no mask, else a filled copy -/
+  | filled (dst src : Var)
+  /-- `x op= array` on a *name*: in place on an ndarray, a re-binding to a new array on a python scalar -/
+  | augName (x : Var)
+  /-- `x[sel] = v`, `x[i] op= v` (for a python list `x`: in place on its element arrays) -/
+  | setItem (x : Var)
+  /-- `x.mask = m`: written *into* the existing mask buffer; a new mask if there was none -/
+  | setMask (x : Var)
+  /-- `setattr(self, name, src)` -/
+  | store (n : Name) (src : Var)
+  /-- `dst = self[name]` -/
+  | load (dst : Var) (n : Name)
+  /-- `return src` (one component of the returned tuple) -/
+  | ret (src : Var)
+  deriving Repr, DecidableEq, Inhabited
+
+def step (σ : St) : Op → St
+  | .asarray d s =>
+    let o := get σ.env s
+    if o.f64 then σ.bind d { o with mask := [] } else σ.alloc d
+  | .reshape d s =>
+    let o := get σ.env s
+    if o.view then σ.bind d o else σ.alloc d (!o.mask.isEmpty)
+  | .view d s c =>
+    let o := get σ.env s
+    σ.bind d { o with view := o.view && c }
+  | .copy d _ => σ.alloc d
+  | .fresh d => σ.alloc d
+  | .scalar d => σ.bind d Obj.scalar
+  | .wrapList d s =>
+    let o := get σ.env s
+    σ.bind d { o with f64 := false, view := false }
+  | .maArray d s =>
+    let o := get σ.env s
+    if o.f64 then σ.bind d o else σ.alloc d (!o.mask.isEmpty)
+  | .maCopy d s => σ.alloc d (!(get σ.env s).mask.isEmpty)
+  | .filled d s =>
+    let o := get σ.env s
+    if o.mask.isEmpty then σ.bind d o else σ.alloc d
+  | .augName x =>
+    let o := get σ.env x
+    if o.all.isEmpty then σ.alloc x else σ.write o.bufs
+  | .setItem x => σ.write (get σ.env x).bufs
+  | .setMask x =>
+    let o := get σ.env x
+    if o.mask.isEmpty then { σ with next := σ.next + 1, env := (x, { o with mask := [σ.next] }) :: σ.env }
+    else σ.write o.mask
+  | .store n s => { σ with attrs := (n, get σ.env s) :: σ.attrs }
+  | .load d n => σ.bind d (get σ.attrs n)
+  | .ret s => { σ with rets := get σ.env s :: σ.rets }
+
+def run (σ : St) (p : List Op) : St := p.foldl step σ
+
+/-- names assigned by `setattr` in a program -/
+def storesOf : List Op → List Name
+  | [] => []
+  | .store n _ :: t => n :: storesOf t
+  | _ :: t => storesOf t
+
+/-! ### static ownership analysis -/
+
+def drop (A : List Var) (x : Var) : List Var := A.filter (· != x)
+
+/-- `A` = variables known to reference only buffers allocated during this call -/
+def safeFrom : List Var → List Op → Bool
+  | _, [] => true
+  | A, .asarray d s :: t | A, .reshape d s :: t | A, .view d s _ :: t | A, .wrapList d s :: t
+  | A, .maArray d s :: t | A, .filled d s :: t =>
+    safeFrom (if A.contains s then d :: A else drop A d) t
+  | A, .copy d _ :: t | A, .maCopy d _ :: t | A, .fresh d :: t | A, .scalar d :: t => safeFrom (d :: A) t
+  | A, .augName x :: t | A, .setItem x :: t | A, .setMask x :: t => A.contains x && safeFrom A t
+  | A, .store _ _ :: t | A, .ret _ :: t => safeFrom A t
+  | A, .load d _ :: t => safeFrom (drop A d) t
+
+/-- a program is safe when, starting with *no* variable owned (all arguments and all attributes
+    belong to the caller / to earlier calls), every write goes through an owned variable -/
+def safe (p : List Op) : Bool := safeFrom [] p
+
+/-! ### variables (roles bound by the caller are < 20) and attribute names -/
+namespace V
+abbrev pos : Var := 0
+abbrev field : Var := 1
+abbrev bins : Var := 2
+abbrev mask : Var := 3
+abbrev direction : Var := 4
+abbrev extDrift : Var := 5
+abbrev condPos : Var := 6
+abbrev condVal : Var := 7
+abbrev condErr : Var := 8
+abbrev xData : Var := 9
+abbrev yData : Var := 10
+abbrev weights : Var := 11
+abbrev pointVol : Var := 12
+abbrev data : Var := 13
+abbrev f : Var := 20
+abbrev p : Var := 21
+abbrev be : Var := 22
+abbrev bc : Var := 23
+abbrev tmp : Var := 24
+abbrev out : Var := 25
+abbrev isData : Var := 26
+abbrev d : Var := 27
+abbrev kv : Var := 28
+abbrev ed : Var := 29
+abbrev est : Var := 30
+abbrev cnt : Var := 31
+abbrev raw : Var := 32
+abbrev rk : Var := 33
+abbrev res : Var := 34
+abbrev m : Var := 35
+abbrev x : Var := 36
+abbrev y : Var := 37
+abbrev w : Var := 38
+abbrev c : Var := 39
+end V
+namespace N
+abbrev field : Name := 0
+abbrev rawField : Name := 1
+abbrev rawKrige : Name := 2
+abbrev krigeField : Name := 3
+abbrev krigeVar : Name := 4
+abbrev meanField : Name := 5
+abbrev new : Name := 6
+abbrev pos : Name := 7
+abbrev condPos : Name := 8
+abbrev condVal : Name := 9
+abbrev condErr : Name := 10
+abbrev condExt : Name := 11
+abbrev krigePos : Name := 12
+abbrev krigeMat : Name := 13
+end N
+
+/-- aliasing-enabling configuration (each entry point reads only the flags that concern it) -/
+structure Cfg where
+  checkShape : Bool := false
+  stacked : Bool := false
+  process : Bool := false
+  save : Bool := false
+  storeNew : Bool := false
+  fitNorm : Bool := false
+  masked : Bool := false
+  allMasked : Bool := false
+  missing : Bool := false
+  noData : Bool := false
+  binsGiven : Bool := false
+  latlon : Bool := false
+  directional : Bool := false
+  oneDir : Bool := false
+  sampling : Bool := false
+  structured : Bool := false
+  fieldGiven : Bool := false
+  returnVar : Bool := false
+  onlyMean : Bool := false
+  extDrift : Bool := false
+  condErrArr : Bool := false
+  fitVario : Bool := false
+  reuse : Bool := false
+  keepKrige : Bool := false
+  upscale : Bool := false
+  fnIdentity : Bool := false
+  weightsArr : Bool := false
+  deriving Repr, DecidableEq, Inhabited
+
+def opt (b : Bool) (l : List Op) : List Op := if b then l else []
+
+/-! ### data flow of the building blocks (normalizer/tools.py, field/base.py) -/
+
+/-- `Normalizer.normalize/denormalize/derivative(data)` on variable `x`; result in `x`.
+    `_check_input`: `is_data = ~isnan(data)`, `out = full_like(data)`, `data = asarray(data)[is_data]`,
+    `is_data[is_data] &= dat_in`, `out[is_data] = f(data)` -/
+def normCall (x : Var) : List Op :=
+  [.fresh V.isData, .fresh V.out, .asarray V.tmp x, .fresh V.tmp, .setItem V.isData, .fresh V.tmp,
+   .setItem V.out, .view x V.out true]
+
+/-- `apply_mean_norm_trend` (current code: works on `np.array(field)`) on variable `x` -/
+def applyMNT (x : Var) (checkShape stacked : Bool) : List Op :=
+  opt checkShape [.asarray V.p V.pos, .view V.p V.p true, .reshape V.p V.p, .asarray x x, .reshape x x]
+  ++ [.copy x x] ++ opt (!stacked) [.wrapList x x]
+  ++ [.setItem x] ++ normCall x ++ [.setItem x] ++ opt (!stacked) [.view x x true]
+
+/-- `remove_trend_norm_mean` on variable `x` (`normalizer.fit(field)` only reads) -/
+def removeTNM (x : Var) (checkShape stacked : Bool) : List Op :=
+  opt checkShape [.asarray V.p V.pos, .view V.p V.p true, .reshape V.p V.p, .asarray x x, .reshape x x]
+  ++ [.copy x x] ++ opt (!stacked) [.wrapList x x]
+  ++ [.setItem x] ++ normCall x ++ [.setItem x] ++ opt (!stacked) [.view x x true]
+
+/-- the code before commit da1c68c (defect D3): no defensive copy -/
+def applyMNT_old (x : Var) (checkShape stacked : Bool) : List Op :=
+  opt checkShape [.asarray x x, .reshape x x] ++ opt (!stacked) [.wrapList x x]
+  ++ [.setItem x] ++ normCall x ++ [.setItem x] ++ opt (!stacked) [.view x x true]
+
+/-- `Field.post_field(field, name, process, save)` on variable `x` -/
+def postField (x : Var) (n : Name) (process save : Bool) : List Op :=
+  [.asarray x x, .reshape x x] ++ opt process (applyMNT x false false) ++ opt save [.store n x]
+
+def postField_old (x : Var) (n : Name) (process save : Bool) : List Op :=
+  [.asarray x x, .reshape x x] ++ opt process (applyMNT_old x false false) ++ opt save [.store n x]
+
+/-- `Field.set_pos`: `self._pos = np.atleast_2d(np.asarray(pos, dtype=double)).reshape(dim, -1)` -/
+def setPos : List Op := [.asarray V.p V.pos, .view V.p V.p true, .reshape V.p V.p, .store N.pos V.p]
+
+/-! ### entry points -/
+
+inductive EP
+  | applyMNT | removeTNM | normalizerCall | normalizerFit
+  | fieldCall | srfCall | condSrfCall | krigeCall | krigeSetCond
+  | varioEstimate | varioAxis | standardBins | fitVariogram | transform | pureFn
+  deriving Repr, DecidableEq, Inhabited
+
+def EP.all : List EP :=
+  [.applyMNT, .removeTNM, .normalizerCall, .normalizerFit, .fieldCall, .srfCall, .condSrfCall, .krigeCall,
+   .krigeSetCond, .varioEstimate, .varioAxis, .standardBins, .fitVariogram, .transform, .pureFn]
+
+def EP.ofString : String → Option EP
+  | "applyMNT" => some .applyMNT | "removeTNM" => some .removeTNM
+  | "normalizerCall" => some .normalizerCall | "normalizerFit" => some .normalizerFit
+  | "fieldCall" => some .fieldCall | "srfCall" => some .srfCall | "condSrfCall" => some .condSrfCall
+  | "krigeCall" => some .krigeCall | "krigeSetCond" => some .krigeSetCond
+  | "varioEstimate" => some .varioEstimate | "varioAxis" => some .varioAxis
+  | "standardBins" => some .standardBins | "fitVariogram" => some .fitVariogram
+  | "transform" => some .transform | "pureFn" => some .pureFn
+  | _ => none
+
+/-- `Krige.__call__` body after `pre_pos` (field in `V.f`, variance in `V.kv`) -/
+def krigeCore (returnVar onlyMean extDrift process save0 save1 : Bool) (n0 n1 : Name) : List Op :=
+  [.fresh V.f] ++ opt returnVar [.fresh V.kv]
+  ++ (if onlyMean && !extDrift then [.setItem V.f]
+      else opt extDrift [.asarray V.ed V.extDrift, .view V.ed V.ed true, .asarray V.ed V.ed, .reshape V.ed V.ed]
+        ++ [.fresh V.res, .setItem V.res, .setItem V.res, .fresh V.tmp, .setItem V.f] ++ opt returnVar [.setItem V.kv])
+  ++ [.reshape V.f V.f] ++ postField V.f n0 process save0
+  ++ opt returnVar ([.fresh V.kv, .reshape V.kv V.kv] ++ postField V.kv n1 false save1)
+
+/-- `vario_estimate`; `latlonInPlace := true` is the code before commit 84a0bfc (defect D2: `bin_edges /= geo_scale`) -/
+def pVarioEstimate (binsGiven allMasked masked structured noData directional oneDir sampling latlon : Bool)
+    (latlonInPlace : Bool := false) : List Op :=
+  opt binsGiven [.asarray V.be V.bins, .view V.be V.be true, .fresh V.bc]
+  ++ [.maCopy V.f V.field]
+  ++ (if allMasked then
+        opt (!binsGiven) [.fresh V.bc] ++ [.fresh V.est, .fresh V.cnt, .ret V.bc, .ret V.est, .ret V.cnt]
+      else
+        opt (!masked) [.filled V.f V.f]
+        ++ [.asarray V.p V.pos, .view V.p V.p true, .reshape V.p V.p] ++ opt structured [.fresh V.p]
+        ++ [.reshape V.f V.f]
+        ++ opt masked [.reshape V.m V.mask, .fresh V.m, .fresh V.p, .fresh V.f]
+        ++ opt noData [.setItem V.f]
+        ++ opt directional [.asarray V.d V.direction, .view V.d V.d true, .fresh V.d]
+        ++ opt sampling [.fresh V.f, .fresh V.p]
+        ++ opt (!binsGiven) [.fresh V.be, .fresh V.bc]
+        ++ opt latlon (if latlonInPlace then [.augName V.be] else [.fresh V.be])
+        ++ removeTNM V.f false true
+        ++ [.fresh V.est, .fresh V.cnt] ++ opt oneDir [.view V.est V.est true, .view V.cnt V.cnt true]
+        ++ [.ret V.bc, .ret V.est, .ret V.cnt])
+
+/-- `vario_estimate_axis` (current code: `np.ma.array(field, ndmin=1, dtype=double, copy=True)`);
+    `copyMask := false` is the code before commit 7b774f4 (copy=False: a float64 MaskedArray input shares
+    its mask, and `field.mask = …` then wrote into the caller's mask) -/
+def pVarioAxis (masked missing : Bool) (copyMask : Bool := true) : List Op :=
+  [.fresh V.m]
+  ++ (if masked || missing then
+        [if copyMask then .maCopy V.f V.field else .maArray V.f V.field]
+        ++ opt missing [.setMask V.f] ++ [.fresh V.m]
+      else [.asarray V.f V.field, .view V.f V.f true])
+  ++ [.view V.f V.f false, .reshape V.f V.f, .fresh V.est, .ret V.est]
+
+/-- `apply_function(fld, function, field, store, process)` behind all `transform.*` wrappers;
+    `old := true` is the code before commit da1c68c (defect D3) -/
+def pTransform (process fnIdentity storeNew save : Bool) (old : Bool := false) : List Op :=
+  [.load V.f N.field]
+  ++ opt process (if old then applyMNT_old V.f false false else removeTNM V.f false false)
+  ++ [if fnIdentity then .view V.f V.f true else .fresh V.f]
+  ++ opt process (if old then applyMNT_old V.f false false else applyMNT V.f false false)
+  ++ postField V.f (if storeNew then N.new else N.field) false save
+  ++ [.ret V.f]
+
+def pApplyMNT (checkShape stacked : Bool) : List Op := applyMNT V.field checkShape stacked ++ [.ret V.field]
+def pRemoveTNM (checkShape stacked : Bool) : List Op := removeTNM V.field checkShape stacked ++ [.ret V.field]
+def pNormCall : List Op := normCall V.data ++ [.ret V.data]
+/-- `Normalizer.fit`: `_check_input(data, return_output_template=False)`, then a scalar optimisation (reads only) -/
+def pNormFit : List Op :=
+  [.fresh V.isData, .asarray V.tmp V.data, .fresh V.tmp, .setItem V.isData, .fresh V.tmp, .scalar V.out]
+
+/-- `Field.__call__(pos, field=…, post_process, store)`; `old` = before da1c68c -/
+def pFieldCall (fieldGiven storeNew process save : Bool) (old : Bool := false) : List Op :=
+  setPos ++ (if fieldGiven then [.asarray V.f V.field, .reshape V.f V.f] else [.fresh V.f])
+  ++ (if old then postField_old V.f (if storeNew then N.new else N.field) process save
+      else postField V.f (if storeNew then N.new else N.field) process save) ++ [.ret V.f]
+
+/-- `SRF.__call__(pos, point_volumes, post_process, store)` -/
+def pSrfCall (upscale storeNew process save : Bool) : List Op :=
+  setPos ++ [.fresh V.tmp, .reshape V.f V.tmp]
+  ++ opt upscale [.fresh V.tmp, .reshape V.tmp V.tmp, .augName V.f]
+  ++ postField V.f (if storeNew then N.new else N.field) process save ++ [.ret V.f]
+
+/-- `Krige.__call__(pos, ext_drift, only_mean, return_var, post_process, store)` -/
+def pKrigeCall (returnVar onlyMean extDrift process save : Bool) : List Op :=
+  setPos ++ krigeCore (returnVar && !onlyMean) onlyMean extDrift process save save
+    (if onlyMean then N.meanField else N.krigeField) N.krigeVar
+  ++ [.ret V.f] ++ opt (returnVar && !onlyMean) [.ret V.kv]
+
+/-- `CondSRF.__call__` -/
+def pCondSrf (reuse keepKrige extDrift process save : Bool) : List Op :=
+  setPos ++ [.fresh V.tmp, .reshape V.raw V.tmp]
+  ++ (if reuse then [.load V.rk N.rawKrige, .load V.kv N.krigeVar]
+      else krigeCore true false extDrift false false save N.krigeField N.krigeVar ++ [.view V.rk V.f true])
+  ++ [.fresh V.w, .fresh V.y]
+  ++ opt (!reuse || !keepKrige) ([.copy V.c V.rk] ++ postField V.c N.krigeField process save)
+  ++ opt (!reuse) (postField V.rk N.rawKrige false save)
+  ++ postField V.raw N.rawField false save
+  ++ [.fresh V.x] ++ postField V.x N.field process save ++ [.ret V.x]
+
+/-- `Krige.set_condition(cond_pos, cond_val, ext_drift, cond_err, fit_normalizer, fit_variogram)` -/
+def pKrigeSetCond (fitNorm fitVario condErrArr extDrift : Bool) : List Op :=
+  [.asarray V.y V.condVal, .reshape V.y V.y, .asarray V.x V.condPos, .reshape V.x V.x, .fresh V.m,
+   .fresh V.x, .fresh V.y, .store N.condPos V.x, .store N.condVal V.y]
+  ++ opt fitNorm [.fresh V.tmp, .fresh V.isData, .asarray V.tmp V.tmp, .fresh V.tmp]
+  ++ opt fitVario ([.fresh V.f] ++ normCall V.f ++ [.augName V.f, .view V.field V.f true, .view V.pos V.x true]
+      ++ pVarioEstimate false false false false false false false false false)
+  ++ opt condErrArr [.asarray V.w V.condErr, .reshape V.w V.w, .store N.condErr V.w]
+  ++ (if extDrift then [.asarray V.ed V.extDrift, .view V.ed V.ed true, .store N.condExt V.ed]
+      else [.fresh V.ed, .store N.condExt V.ed])
+  ++ [.fresh V.p, .store N.krigePos V.p, .fresh V.res, .setItem V.res, .setItem V.res, .setItem V.res,
+      .fresh V.tmp, .store N.krigeMat V.tmp]
+
+def pStandardBins (structured latlon : Bool) : List Op :=
+  (if structured then [.fresh V.p] else [.asarray V.p V.pos, .reshape V.p V.p]) ++ opt latlon [.fresh V.p]
+  ++ [.fresh V.tmp, .fresh V.be, .ret V.be]
+
+/-- `fit_variogram(x_data, y_data, weights=…)`: `np.asarray(x).reshape(-1)` (views), `np.tile`, `1/weights` -/
+def pFitVariogram (directional latlon weightsArr : Bool) : List Op :=
+  [.view V.x V.xData true, .reshape V.x V.x, .view V.y V.yData true, .reshape V.y V.y]
+  ++ opt directional [.fresh V.x] ++ opt latlon [.fresh V.x]
+  ++ opt weightsArr [.view V.w V.weights true, .reshape V.w V.w, .fresh V.w]
+  ++ [.fresh V.res, .scalar V.out, .ret V.res]
+
+/-- CovModel functions, geometric helpers, array transforms, special functions:
+    `x = np.asarray(arg)`, the result is built (possibly with `res[sel] = …`, `res *= …`) in a new array -/
+def pPureFn : List Op :=
+  [.asarray V.x V.data, .fresh V.x, .fresh V.res, .setItem V.res, .augName V.res, .ret V.res]
+
+def prog : EP → Cfg → List Op
+  | .applyMNT, c => pApplyMNT c.checkShape c.stacked
+  | .removeTNM, c => pRemoveTNM c.checkShape c.stacked
+  | .normalizerCall, _ => pNormCall
+  | .normalizerFit, _ => pNormFit
+  | .fieldCall, c => pFieldCall c.fieldGiven c.storeNew c.process c.save
+  | .srfCall, c => pSrfCall c.upscale c.storeNew c.process c.save
+  | .krigeCall, c => pKrigeCall c.returnVar c.onlyMean c.extDrift c.process c.save
+  | .condSrfCall, c => pCondSrf c.reuse c.keepKrige c.extDrift c.process c.save
+  | .krigeSetCond, c => pKrigeSetCond c.fitNorm c.fitVario c.condErrArr c.extDrift
+  | .varioEstimate, c =>
+    pVarioEstimate c.binsGiven c.allMasked c.masked c.structured c.noData c.directional c.oneDir c.sampling c.latlon
+  | .varioAxis, c => pVarioAxis c.masked c.missing
+  | .standardBins, c => pStandardBins c.structured c.latlon
+  | .fitVariogram, c => pFitVariogram c.directional c.latlon c.weightsArr
+  | .transform, c => pTransform c.process c.fnIdentity c.storeNew c.save
+  | .pureFn, _ => pPureFn
+
+/-- the same entry points with the data flow they had before the repairs (regression witnesses) -/
+def progOld : EP → Cfg → List Op
+  | .varioEstimate, c =>
+    pVarioEstimate c.binsGiven c.allMasked c.masked c.structured c.noData c.directional c.oneDir c.sampling c.latlon true
+  | .varioAxis, c => pVarioAxis c.masked c.missing false
+  | .transform, c => pTransform c.process c.fnIdentity c.storeNew c.save true
+  | .fieldCall, c => pFieldCall c.fieldGiven c.storeNew c.process c.save true
+  | ep, c => prog ep c
+
+/-! ### driver: run an entry point on a heap described by the harness -/
+
+def flag (j : Json) (k : String) : Bool := match getBool j k with | .ok b => b | _ => false
+
+def cfgOfJson (j : Json) : Cfg :=
+  { checkShape := flag j "checkShape", stacked := flag j "stacked", process := flag j "process",
+    save := flag j "save", storeNew := flag j "storeNew", fitNorm := flag j "fitNorm",
+    masked := flag j "masked", allMasked := flag j "allMasked", missing := flag j "missing",
+    noData := flag j "noData", binsGiven := flag j "binsGiven", latlon := flag j "latlon",
+    directional := flag j "directional", oneDir := flag j "oneDir", sampling := flag j "sampling",
+    structured := flag j "structured", fieldGiven := flag j "fieldGiven", returnVar := flag j "returnVar",
+    onlyMean := flag j "onlyMean", extDrift := flag j "extDrift", condErrArr := flag j "condErrArr",
+    fitVario := flag j "fitVario", reuse := flag j "reuse", keepKrige := flag j "keepKrige",
+    upscale := flag j "upscale", fnIdentity := flag j "fnIdentity", weightsArr := flag j "weightsArr" }
+
+def natsJson (l : List Nat) : Json := Json.arr (l.map fun n => Json.num (JsonNumber.fromNat n)).toArray
+
+def objJson (o : Obj) : Json := Json.mkObj [("bufs", natsJson o.bufs), ("mask", natsJson o.mask)]
+
+/-- `[[key, bufs, mask (0 = none, else id+1), f64, view], …]` → association list -/
+def bindingsOf (j : Json) (k : String) : Except String (List (Nat × Obj)) := do
+  let v ← j.getObjVal? k
+  let a ← v.getArr?
+  a.toList.mapM fun e => do
+    let key ← getNat e "key"
+    let bufs ← getNats e "bufs"
+    let mask ← getNats e "mask"
+    return (key, { bufs := bufs.toList, mask := mask.toList, f64 := flag e "f64", view := flag e "view" })
+
+def dedup (l : List Nat) : List Nat := l.foldl (fun acc x => if acc.contains x then acc else acc ++ [x]) []
+
+def opOfJson (e : Json) : Except String Op := do
+  let k ← getStr e "k"
+  let a := (getNat e "a").toOption.getD 0
+  let b := (getNat e "b").toOption.getD 0
+  match k with
+  | "asarray" => return .asarray a b | "reshape" => return .reshape a b
+  | "view" => return .view a b (flag e "c") | "copy" => return .copy a b
+  | "fresh" => return .fresh a | "scalar" => return .scalar a | "wrapList" => return .wrapList a b
+  | "maArray" => return .maArray a b | "maCopy" => return .maCopy a b | "filled" => return .filled a b
+  | "augName" => return .augName a | "setItem" => return .setItem a | "setMask" => return .setMask a
+  | "store" => return .store a b | "load" => return .load a b | "ret" => return .ret a
+  | _ => throw s!"heap: unknown op kind {k}"
+
+def report (σ0 σ : St) (p : List Op) : Json :=
+  Json.mkObj [
+    ("written", natsJson (dedup (σ.written.filter (· < σ0.next)))),
+    ("written_new", natsJson (dedup (σ.written.filter (σ0.next ≤ ·)))),
+    ("rets", Json.arr (σ.rets.reverse.map objJson).toArray),
+    ("attrs", Json.arr ((dedup (σ.attrs.map (·.1))).map fun n =>
+        Json.mkObj [("name", Json.num (JsonNumber.fromNat n)), ("obj", objJson (get σ.attrs n))]).toArray),
+    ("safe", Json.bool (safe p)),
+    ("len", Json.num (JsonNumber.fromNat p.length))]
 
 /-- line-protocol operations of this model; `none` = not one of mine -/
 def ops (op : String) (j : Json) : Option (Except String Json) :=
   match op with
+  | "heap_ep" => some (do
+      -- run a modelled entry point: {"ep", "cfg":{flags}, "next", "env":[bindings], "attrs":[bindings], "variant"}
+      let eps ← getStr j "ep"
+      let cfgj := (j.getObjVal? "cfg").toOption.getD (Json.mkObj [])
+      let c := cfgOfJson cfgj
+      let variant := (getStr j "variant").toOption.getD ""
+      let p ← match EP.ofString eps with
+        | some ep => pure (if variant == "old" then progOld ep c else prog ep c)
+        | none => throw s!"heap: unknown entry point {eps}"
+      let next ← getNat j "next"
+      let env ← bindingsOf j "env"
+      let attrs ← bindingsOf j "attrs"
+      let σ0 : St := { next := next, env := env, attrs := attrs, rets := [], written := [], ver := fun _ => 0 }
+      return report σ0 (run σ0 p) p)
+  | "heap_prog" => some (do
+      -- run an explicit op list (primitive correspondence / programs extracted from the source)
+      let v ← j.getObjVal? "prog"
+      let a ← v.getArr?
+      let p ← a.toList.mapM opOfJson
+      let next ← getNat j "next"
+      let env ← bindingsOf j "env"
+      let attrs ← bindingsOf j "attrs"
+      let σ0 : St := { next := next, env := env, attrs := attrs, rets := [], written := [], ver := fun _ => 0 }
+      return report σ0 (run σ0 p) p)
+  | "heap_safe_all" => some (do
+      -- the static verdict for every entry point over every configuration the harness lists
+      let v ← j.getObjVal? "cfgs"
+      let a ← v.getArr?
+      let cs := a.toList.map cfgOfJson
+      return Json.arr (EP.all.map fun ep =>
+        Json.mkObj [("ep", Json.str (reprStr ep)), ("unsafe", natsJson ((cs.zipIdx.filter fun (c, _) => !safe (prog ep c)).map (·.2)))]).toArray)
   | _ => none
 
 end GSV.Model.Heap
